@@ -123,6 +123,49 @@ def _elem_atom(a, idx, ranks):
             return Rat.atom(a)
         if a.name in ("sum", "mean", "max", "min", "std", "var", "prod") and len(a.args) > 1 and a.args[1] is None:
             return Rat.atom(a)
+        if a.name == "arange" and len(a.args) == 3 and len(idx) >= 1:
+            lo, hi, st = a.args
+            return lo + idx[-1] * st
+        if a.name == "column_stack" and isinstance(a.args[0], tuple) and len(idx) >= 2:
+            j = idx[-1].real_const() if isinstance(idx[-1], Rat) else None
+            if j is None or int(j) != j or not (0 <= int(j) < len(a.args[0])):
+                raise NoElement()
+            return _elem(a.args[0][int(j)], (idx[-2],), ranks)
+        if a.name == "setitem" and len(a.args) == 3:
+            return _elem_setitem(a, idx, ranks)
+        if a.name == "astype" and a.args:
+            return _elem(a.args[0], idx, ranks)
+    raise NoElement()
+
+
+def _elem_setitem(a, idx, ranks):
+    """element of `base` after `base[where] = value`, for stores that address whole rows / columns by constants"""
+    base, where, val = a.args
+    wt = where if isinstance(where, tuple) and not (where and where[0] == "slice") else (where,)
+    if len(wt) > len(idx):
+        raise NoElement()
+    use = idx[:len(wt)] if len(wt) == len(idx) else idx[:len(wt)]
+    inside = True
+    sub = []
+    for w, k in zip(wt, use):
+        if isinstance(w, tuple) and w and w[0] == "slice":
+            lo, hi, st = w[1], w[2], w[3]
+            if hi is None and st is None and (lo is None or (isinstance(lo, Rat) and lo.is_zero())):
+                sub.append(k)
+                continue
+            raise NoElement()
+        if isinstance(w, Rat) and w.is_const() and isinstance(k, Rat) and k.is_const():
+            if not w.equals(k):
+                inside = False
+            continue
+        raise NoElement()
+    if not inside:
+        if isinstance(base, Rat):
+            return _elem(base, idx, ranks)
+        return Rat.const(base)
+    rest = tuple(sub) + tuple(idx[len(wt):])
+    if isinstance(val, Rat):
+        return _elem(val, rest, ranks) if not val.is_const() else val
     raise NoElement()
 
 
